@@ -26,6 +26,7 @@ func main() {
 	files["Tables.lean"] = x.genTables()
 	files["Layouts.lean"] = x.genLayouts()
 	files["Skeletons.lean"] = x.genSkeletons()
+	files["Funcs.lean"] = x.genFuncs()
 	changed := 0
 	os.MkdirAll(*out, 0o755)
 	for name, content := range files {
